@@ -92,7 +92,7 @@ TIE_FUNCS = {
                                "Repr.replace_inner", "Repr.new"],
     "LSProofs.Gen.StepG": ["Repr.new", "Repr.from_str", "Repr.with_capacity", "Repr.replace_inner", "Repr.set_len", "Repr.truncate_unchecked",
                            "Repr.truncate", "Repr.make_shallow_clone", "Repr.reserve", "Repr.shrink_to", "Repr.ensure_modifiable",
-                           "Repr.push_str", "Repr.insert_str", "Repr.remove", "Repr.pop", "Repr.retain", "Repr.is_unique", "LeanString.clear",
+                           "Repr.push_str", "Repr.insert_str", "Repr.remove", "Repr.pop", "Repr.retain", "Repr.from_char", "Repr.from_bool", "Repr.is_unique", "LeanString.clear",
                            "LeanString.clone", "LeanString.clone_from", "LeanString.drop"],
     "LSProofs.Gen.HeapBuf": ["TextLen.new_body", "Capacity.new_body", "HeapBuffer.allocate_ptr_body", "HeapBuffer.new_body",
                              "HeapBuffer.with_capacity_body", "HeapBuffer.with_additional_body", "HeapBuffer.allocation_body",
